@@ -5,14 +5,17 @@ From Dolt Require Import C29.Model C29.Spec C29.Corr C43.Model C43.Spec.
 Import ListNotations.
 Local Open Scope N_scope.
 
-Record input := { i_s : schema; i_b : table; i_l : table; i_r : table }.   (* no schema change: one column list *)
+Record input := { i_s : schema; i_b : table; i_l : table; i_r : table;   (* no schema change: one column list *)
+                  i_probes : list cell }.   (* values looked up through the secondary index on non-key column 0 (empty: no index) *)
 
 Record obs := {
   o_err : bool;                      (* the merge or a resolve call returned an error *)
   o_rows : table;                    (* table after the merge *)
   o_conf : list conflict_entry;      (* dolt_conflicts_t after the merge *)
   o_ours : table; o_ours_left : N;   (* table / number of rows of dolt_conflicts_t after resolve --ours *)
-  o_theirs : table; o_theirs_left : N }.
+  o_theirs : table; o_theirs_left : N;
+  o_ours_ix : list (cell * list N);  (* after resolve --ours: for each probe value, the keys SELECT ... WHERE c0 = v returns *)
+  o_theirs_ix : list (cell * list N) }.
 
 Definition case := (input * obs)%type.
 
@@ -22,7 +25,23 @@ Definition model_obs (i : input) : obs :=
   let rt := resolve_state false (m_rows M) (m_conf M) in
   {| o_err := m_err M; o_rows := m_rows M; o_conf := m_conf M;
      o_ours := fst ro; o_ours_left := N.of_nat (length (snd ro));
-     o_theirs := fst rt; o_theirs_left := N.of_nat (length (snd rt)) |}.
+     o_theirs := fst rt; o_theirs_left := N.of_nat (length (snd rt));
+     o_ours_ix := map (fun v => (v, lookup_idx v (build_idx 0 (m_rows M)))) (i_probes i);
+     o_theirs_ix := map (fun v => (v, lookup_idx v (resolve_idx 0 (m_rows M) (m_conf M) (build_idx 0 (m_rows M))))) (i_probes i) |}.
+
+Definition memN (k : N) (ks : list N) : bool := existsb (N.eqb k) ks.
+Definition keyset_eqb (a b : list N) : bool := forallb (fun k => memN k b) a && forallb (fun k => memN k a) b.
+Fixpoint ix_eqb (a b : list (cell * list N)) : bool :=
+  match a, b with
+  | [], [] => true
+  | (v, ks) :: a', (w, js) :: b' => cell_eqb v w && keyset_eqb ks js && ix_eqb a' b'
+  | _, _ => false
+  end.
+
+(* what a lookup of value v must return: exactly the keys of the rows holding v in the indexed column *)
+Definition lookup_ok (t : table) (e : cell * list N) : bool :=
+  let holds := fun k => match get k t with Some r => cell_eqb (ival 0 r) (fst e) | None => false end in
+  forallb holds (snd e) && forallb (fun k => implb (holds k) (memN k (snd e))) (keys t).
 
 Definition obs_eqb_s (s : schema) (m o : obs) : bool :=
   Bool.eqb (o_err m) (o_err o)
@@ -30,7 +49,8 @@ Definition obs_eqb_s (s : schema) (m o : obs) : bool :=
       || (tables_agree s (o_rows m) s (o_rows o)
           && conf_agree s (o_conf m) s (o_conf o)
           && tables_agree s (o_ours m) s (o_ours o) && (o_ours_left m =? o_ours_left o)
-          && tables_agree s (o_theirs m) s (o_theirs o) && (o_theirs_left m =? o_theirs_left o))).
+          && tables_agree s (o_theirs m) s (o_theirs o) && (o_theirs_left m =? o_theirs_left o)
+          && ix_eqb (o_ours_ix m) (o_ours_ix o) && ix_eqb (o_theirs_ix m) (o_theirs_ix o))).
 
 (* The property on what dolt returned:
    (1) dolt_conflicts_t lists exactly the keys the declarative merge declares conflicting, with that
@@ -55,7 +75,9 @@ Definition oracle (i : input) (o : obs) : bool :=
           | None => true
           end)
      (all_keys (i_b i) (i_l i) (i_r i) ++ keys (o_rows o) ++ map fst (o_conf o) ++ keys (o_ours o) ++ keys (o_theirs o))
-  && (o_ours_left o =? 0) && (o_theirs_left o =? 0).
+  && (o_ours_left o =? 0) && (o_theirs_left o =? 0)
+  (* (3) the secondary index still mirrors the table after either resolution *)
+  && forallb (lookup_ok (o_ours o)) (o_ours_ix o) && forallb (lookup_ok (o_theirs o)) (o_theirs_ix o).
 
 Definition check_case (c : case) : N :=
   (if obs_eqb_s (i_s (fst c)) (model_obs (fst c)) (snd c) then 0 else 1)
